@@ -3,8 +3,11 @@ from __future__ import annotations
 from torchtree.cli.evolution import COALESCENT_PIECEWISE
 
 
-def create_loggers(parameters: list[str], arg) -> dict:
-    models = ["joint.jacobian", "joint", "like", "prior"]
+def create_loggers(parameters: list[str], arg, has_prior: bool = True) -> dict:
+    models = ["joint.jacobian", "joint", "like"]
+    # the joint holds a `prior` only when the model has at least one prior distribution
+    if has_prior:
+        models.append("prior")
     if arg.coalescent:
         models.append("coalescent")
         if arg.coalescent in COALESCENT_PIECEWISE and not arg.gmrf_integrated:
